@@ -184,6 +184,7 @@ type VC struct {
 	nfresh   int
 	obs      []*Obligation
 	covers   []*Cover
+	arrCache map[string]string // array comprehensions already introduced (body text -> constant)
 	oldAt    map[string]map[string]bool // term -> frontiers F for which (< (rootof term) F) is an asserted unit fact
 	declared map[string]bool
 	uses     map[string]bool
@@ -588,6 +589,9 @@ func (vc *VC) elemFn(es string) string {
 		return "el8"
 	}
 	fn := q("elem!" + es)
+	if es == "Str" {
+		return fn // declared in the prelude
+	}
 	if !vc.declared[fn] {
 		vc.declared[fn] = true
 		ms := arrSort(SInt, es)
